@@ -470,6 +470,7 @@ func runC05(c *Ctx) {
 		}
 	}
 	c.Check(fname(sv)+"#payload-binds-kind", sv.Pos(), hasKind, ifelse(hasKind, "the signed payload includes the vote kind", "the signed payload is hash‖round‖index without the vote kind: an honest prevote for A and precommit for B in one round/index verify as double-sign evidence"))
+	c05RoundE(c, c.W)
 }
 
 func ownerNameOfField(w *World, f *types.Var) string { return fieldOwner(w, f) }
@@ -777,5 +778,96 @@ func c05Variants() []Variant {
 		{Name: "head-as-parent", File: "staking/slash.go", Old: "	parentHeight := new(big.Int).Sub(header.Number, big.NewInt(1))", New: "	parentHeight := new(big.Int).Set(ctx.chain.CurrentHeader().Number)", Rule: "C05.D4", Construct: "replaySlashing#parent-height"},
 		{Name: "penalty-to-coinbase", File: "staking/slash.go", Old: "	currentDB.AddBalance(config.PenaltyTo, totalPenalty)", New: "	currentDB.AddBalance(header.Coinbase, totalPenalty)", Rule: "C05.D5", Construct: "credits-penalty-account"},
 		{Name: "withdraw-debit-not-counted", File: "staking/slash.go", Old: "			updateCounter(fromWithdraw, nil, nil, nil)\n", New: "", Rule: "C05.D5", Construct: "withdraw-debit-accumulated"},
+	}
+}
+
+// c05RoundE: D10 (vote leaves only after it is recorded; = C02.S1's gate) and D11 (one penalised-set per block).
+func c05RoundE(c *Ctx, w *World) {
+	c.Rule("C05.D10", "GATE", "an honest validator cannot be made to equivocate: in Voter.vote the signed vote is handed to the network (SendMessageEvent) only on the nil edge of VoteDB.UpdateVoteData — the call that both refuses a second vote of the kind in this (round, index) and persists the first. Posted before it, a step announced twice (pause / resume, restart) with a better proposal in between yields two signed prevotes, which every node accepts as double-sign evidence (same gate as C02.S1)")
+	c.Min(1)
+	{
+		vote := w.Fn(uconPkg, "Voter", "vote")
+		updObj := w.FuncObj(uconPkg, "VoteDB", "UpdateVoteData")
+		sendEv := w.Named(uconPkg, "SendMessageEvent")
+		c.sawFunc(fname(vote))
+		updCalls := callsTo(vote, updObj)
+		isPost := func(in ssa.Instruction) bool {
+			ci, isCall := in.(ssa.CallInstruction)
+			if !isCall {
+				return false
+			}
+			o := calleeObj(ci)
+			if o == nil || (o.Name() != "AsyncPost" && o.Name() != "Post") {
+				return false
+			}
+			args := callArgs(ci)
+			return len(args) > 0 && types.Identical(stripConv(args[0]).Type(), sendEv)
+		}
+		n := 0
+		for _, ci := range sitesVia(w, vote, isPost) {
+			n++
+			c.sites++
+			ok := false
+			for _, u := range updCalls {
+				if gatedByErrNil(ci, u) {
+					ok = true
+				}
+			}
+			c.Check(fname(vote)+"#vote-leaves-only-after-the-once-guard", ci.Pos(), ok, ifelse(ok, "posted on the nil edge of UpdateVoteData", "the vote is posted on a path that has not passed the already-voted guard: the same step announced twice makes the honest validator sign two different hashes"))
+		}
+		if n == 0 {
+			c.Undecided(fname(vote)+"#vote-leaves-only-after-the-once-guard", vote.Pos(), "no SendMessageEvent post found in vote")
+		}
+	}
+
+	c.Rule("C05.D11", "SAME-VALUE", "an equivocation is penalised once per block whatever label the evidence carries: the set of validators already penalised in this block, which processDoubleSign / processDoubleSignV5 consult and extend, is one map made once in processEvidences and handed to every call — never chosen per evidence (the vote-kind label of an evidence is not covered by the signatures, so a second copy of the same pair under another label would otherwise be penalised again)")
+	c.Min(1)
+	{
+		pe := w.Fn("staking", "Staking", "processEvidences")
+		c.sawFunc(fname(pe))
+		var sets []ssa.Value
+		var first ssa.CallInstruction
+		nCalls := 0
+		for _, ci := range callInstrs(pe) {
+			o := calleeObj(ci)
+			if o == nil || !strings.HasPrefix(o.Name(), "processDoubleSign") {
+				continue
+			}
+			nCalls++
+			if first == nil {
+				first = ci
+			}
+			for _, a := range callArgs(ci) {
+				if m, isMap := a.Type().Underlying().(*types.Map); isMap {
+					if _, isStruct := m.Elem().Underlying().(*types.Struct); isStruct {
+						sets = append(sets, stripConvNoBind(a))
+					}
+				}
+			}
+		}
+		c.sites++
+		if nCalls == 0 || len(sets) == 0 {
+			c.Undecided(fname(pe)+"#one-penalised-set", pe.Pos(), "no processDoubleSign* call with a set argument found in processEvidences")
+		} else {
+			ok := true
+			why := ""
+			for _, sv := range sets {
+				if _, isMk := sv.(*ssa.MakeMap); !isMk {
+					ok = false
+					why = fmt.Sprintf("the set handed over is a %T (chosen among several), not one map", sv)
+				}
+				if sv != sets[0] {
+					ok = false
+					why = "different calls are handed different sets"
+				}
+			}
+			if mk, isMk := sets[0].(*ssa.MakeMap); isMk && ok {
+				if isLoopHeader(mk.Block()) || inLoopBlock(mk.Block()) {
+					ok = false
+					why = "the set is made anew inside the loop over the evidences"
+				}
+			}
+			c.Check(fname(pe)+"#one-penalised-set", first.Pos(), ok, ifelse(ok, "one set, made once before the loop, reaches every evidence handler", why+": the same equivocation filed twice in one block is penalised twice"))
+		}
 	}
 }
